@@ -71,9 +71,13 @@ theorem obsSpec_holds (s : State) (h : Inv s) : obsSpec s.maxReq s.ext (obsOf s)
   unfold obsSpec
   simp only [Bool.and_eq_true, decide_eq_true_eq, List.all_eq_true, Bool.or_eq_true, Bool.not_eq_true',
     List.contains_iff_mem, isOpen_obsOf, beq_iff_eq]
-  refine ⟨⟨⟨⟨?_, ?_⟩, ?_⟩, ?_⟩, ?_⟩
+  refine ⟨⟨⟨⟨⟨⟨?_, ?_⟩, ?_⟩, ?_⟩, ?_⟩, ?_⟩, ?_⟩
   · show s.reqCur = if s.maxReq = 0 then 0 else (s.ext : Int) + ((obsOf s).liveConns.length : Int)
     rw [hlen]; exact hc.req
+  · show s.actHost = ((obsOf s).liveConns.length : Int)
+    rw [hlen]; exact hc.act.1
+  · show s.actCluster = ((obsOf s).liveConns.length : Int)
+    rw [hlen]; exact hc.act.2
   · intro c hcu
     obtain ⟨i, _, hs, hst⟩ := (mem_usable s c).mp hcu
     have ⟨h1, _, h3⟩ := hc.slotOk i c hs
